@@ -6,7 +6,7 @@
     rejected; placeholder slots are thiscall.  The same record is what fills the vftable slot
     ([function_to_region] copies [sf_cc] into the fn-pointer type) and what the wrapper prints. *)
 From Coq Require Import List NArith ZArith Bool String.
-From PyxisModel Require Import Base Grammar SemTypes Registry Sem FunctionLemmas.
+From PyxisModel Require Import Base Grammar SemTypes Registry Sem FunctionLemmas WholeBuild.
 Import ListNotations.
 
 Theorem C16_main : forall R scope is_vfunc f sf,
@@ -45,3 +45,28 @@ Print Assumptions C16_slot_convention.
 Theorem C16_placeholder_thiscall : forall k, sf_cc (padding_fn k) = CC_Thiscall.
 Proof. reflexivity. Qed.
 Print Assumptions C16_placeholder_thiscall.
+
+(** ** End to end: the calling convention of every impl function of every type of an accepted
+    ([collision_free]) build, as it stands in the FINAL registry, is the declared one or the default *)
+Theorem C16_whole_build : forall order ptr mods st0 st p it0 gd td0 it r parent module0 blk,
+  input_state ptr mods = Ok st0 -> collision_free (st_reg st0) ->
+  pyxis_resolve order ptr mods = BOk st ->
+  reg_get (st_reg st0) p = Some it0 -> it_state it0 = Unresolved gd -> gi_inner gd = GIType td0 ->
+  reg_get (st_reg st) p = Some it -> it_state it = Resolved r ->
+  path_parent p = Some parent -> alookup parent (st_modules st0) = Some module0 ->
+  alookup p (m_impls module0) = Some blk ->
+  exists td inherited own,
+    rs_inner r = IType td /\ td_assoc td = inherited ++ own /\
+    Forall2 (fun f sf => cc_spec f = Some (sf_cc sf) /\ sf_name sf = gf_name f) (gb_fns blk) own.
+Proof.
+  intros order ptr mods st0 st p it0 gd td0 it r parent module0 blk Hin Hcf Hres Hg0 Hs0 Hty Hg Hs Hpar Hmod Hblk.
+  destruct (whole_build_impl_functions _ _ _ _ _ _ _ _ _ _ _ _ _ _ Hin Hcf Hres Hg0 Hs0 Hty Hg Hs Hpar Hmod Hblk)
+    as (td & R_mid & inherited & own & Hi & _ & Ha & Hall).
+  exists td, inherited, own. split; [exact Hi|]. split; [exact Ha|]. clear Ha Hblk.
+  induction Hall as [|f sf fs sfs Hf _ IH]; [constructor|]. constructor; [|exact IH].
+  split; [eapply function_build_spec; eauto|].
+  unfold function_build in Hf. apply SemLemmas.bind_ok in Hf as (doc & _ & Hf). apply SemLemmas.bind_ok in Hf as (stt & _ & Hf).
+  destruct (fst stt); [|discriminate]. apply SemLemmas.bind_ok in Hf as (args & _ & Hf). apply SemLemmas.bind_ok in Hf as (ret & _ & Hf).
+  inversion Hf. reflexivity.
+Qed.
+Print Assumptions C16_whole_build.
